@@ -22,6 +22,7 @@ package main
 
 import (
 	"bytes"
+	"crypto/dsa"
 	"crypto/sha256"
 	"encoding/hex"
 	"fmt"
@@ -1143,8 +1144,8 @@ func (s *specScenario) reAKE(p *specParty, shortSecret bool) {
 		return
 	}
 	g.dist["act:re-ake"]++
-	otr3.VerifShiftClock(s.a.c, 61*time.Second)
-	otr3.VerifShiftClock(s.b.c, 61*time.Second)
+	otr3.VerifShiftClock(s.a.c, 75*time.Second)
+	otr3.VerifShiftClock(s.b.c, 75*time.Second)
 	marks := s.beginAKE()
 	if shortSecret {
 		s.forceShortSecret()
@@ -1406,6 +1407,203 @@ func (s *specScenario) direction2(from, to *specParty, withDisconnect bool) {
 	}
 }
 
+// ---------- the library's own signing routine ----------
+//
+// The parties above sign through detKey, which builds the 40 bytes itself; DSAPrivateKey.Sign - the
+// routine an application's key really signs with - is exercised here, directly and in a key exchange.
+// The document: a signature is (r, s), each a 20 byte big-endian unsigned number, i.e. a number with
+// fewer than 20 significant bytes (one in 256) is padded with zero bytes ON THE LEFT.
+
+// a randomness source that makes crypto/dsa.Sign deterministic and cannot run dry: dsa.Sign reads one
+// extra byte now and then (a one byte read, its value is not used) and then the nonce in reads of the
+// size of q; the one byte reads are answered apart, so the nonces do not depend on them
+type sigNonceReader struct {
+	r     *rand.Rand
+	fixed [][]byte // nonces handed out first
+	last  []byte   // the nonce handed out last
+}
+
+func (n *sigNonceReader) Read(p []byte) (int, error) {
+	if len(p) == 1 {
+		p[0] = 0
+		return 1, nil
+	}
+	if len(n.fixed) > 0 && len(n.fixed[0]) == len(p) {
+		copy(p, n.fixed[0])
+		n.fixed = n.fixed[1:]
+	} else {
+		n.r.Read(p)
+	}
+	n.last = append(n.last[:0], p...)
+	return len(p), nil
+}
+
+// the signature the document prescribes for this key, value and nonce (nil if the nonce is not usable)
+func specDSASign(k *otr3.DSAPrivateKey, hashed, nonce []byte) (r, s *big.Int) {
+	priv := &k.PrivateKey
+	kk := new(big.Int).SetBytes(nonce)
+	if kk.Sign() == 0 || kk.Cmp(priv.Q) >= 0 {
+		return nil, nil
+	}
+	r = new(big.Int).Exp(priv.G, kk, priv.P)
+	r.Mod(r, priv.Q)
+	s = new(big.Int).Mul(priv.X, r)
+	s.Add(s, new(big.Int).SetBytes(hashed)).Mul(s, new(big.Int).ModInverse(kk, priv.Q)).Mod(s, priv.Q)
+	if r.Sign() == 0 || s.Sign() == 0 {
+		return nil, nil
+	}
+	return r, s
+}
+
+// a nonce for which the r ("r") or the s ("s") of the signature on hashed has a zero top byte
+func specSteerNonce(k *otr3.DSAPrivateKey, hashed []byte, which string, rr *rand.Rand) []byte {
+	nonce := make([]byte, 20)
+	for {
+		rr.Read(nonce)
+		r, s := specDSASign(k, hashed, nonce)
+		if r == nil {
+			continue
+		}
+		if (which == "r" && r.BitLen() <= 152) || (which == "s" && s.BitLen() <= 152) || which == "" {
+			return nonce
+		}
+	}
+}
+
+// one signature made by DSAPrivateKey.Sign, read as the document reads it
+func (g *gen) specCheckSignature(where string, keyIdx int, hashed, nonce, sig []byte, err error) bool {
+	k := testKeys[keyIdx]
+	olog.ok("C10")
+	er, es := specDSASign(k, hashed, nonce)
+	in := fmt.Sprintf("%s: test key %d, value signed %x, nonce %x", where, keyIdx, hashed, nonce)
+	if er != nil {
+		in += fmt.Sprintf(" (the document's signature: r=%040x s=%040x)", er, es)
+		if er.BitLen() <= 152 {
+			g.dist["sign:short-r"]++
+		}
+		if es.BitLen() <= 152 {
+			g.dist["sign:short-s"]++
+		}
+	}
+	if err != nil || len(sig) != 40 {
+		specViol("signature-not-as-specified", fmt.Sprintf("%s: Sign returned %x, %v", in, sig, err))
+		return false
+	}
+	r, s := new(big.Int).SetBytes(sig[:20]), new(big.Int).SetBytes(sig[20:])
+	if !dsa.Verify(&k.PrivateKey.PublicKey, hashed, r, s) {
+		specViol("signature-not-as-specified", fmt.Sprintf("%s: Sign returned %x; read as two 20 byte big-endian numbers r=%040x s=%040x this is not a valid signature of the value", in, sig, r, s))
+		return false
+	}
+	if er != nil {
+		want := make([]byte, 40)
+		er.FillBytes(want[:20])
+		es.FillBytes(want[20:])
+		if !bytes.Equal(want, sig) {
+			specViol("signature-not-as-specified", fmt.Sprintf("%s: Sign returned %x (r=%040x s=%040x)", in, sig, r, s))
+			return false
+		}
+	}
+	if rest, ok := k.PublicKey().Verify(hashed, sig); !ok || len(rest) != 0 {
+		specViol("signature-not-as-specified", fmt.Sprintf("%s: Sign returned %x (r=%040x s=%040x), valid as the document reads it, but the library's own Verify says %v, rest %x", in, sig, r, s, ok, rest))
+		return false
+	}
+	return true
+}
+
+const specSignaturesPerKey = 1500
+
+func (g *gen) specSignatures() {
+	rr := rand.New(rand.NewSource(g.r.Int63()))
+	for ki, k := range testKeys {
+		nr := &sigNonceReader{r: rand.New(rand.NewSource(rr.Int63()))}
+		// the last four: nonces chosen so that r, or s, is short
+		for i := 0; i < specSignaturesPerKey+4; i++ {
+			hashed := make([]byte, 32)
+			rr.Read(hashed)
+			where := "DSAPrivateKey.Sign"
+			if i >= specSignaturesPerKey {
+				which := []string{"r", "s"}[i%2]
+				nr.fixed = [][]byte{specSteerNonce(k, hashed, which, rr)}
+				where += " (short " + which + ")"
+			}
+			sig, err := k.Sign(nr, hashed)
+			g.specCheckSignature(where, ki, hashed, nr.last, sig, err)
+			g.dist["sign:direct"]++
+		}
+	}
+}
+
+// a key whose signatures are made by DSAPrivateKey.Sign with a chosen nonce
+type steerKey struct {
+	*otr3.DSAPrivateKey
+	g      *gen
+	keyIdx int
+	which  string
+	rr     *rand.Rand
+	where  string
+	made   int
+	bad    int
+}
+
+func (k *steerKey) Sign(_ io.Reader, hashed []byte) ([]byte, error) {
+	nr := &sigNonceReader{r: k.rr, fixed: [][]byte{specSteerNonce(k.DSAPrivateKey, hashed, k.which, k.rr)}}
+	sig, err := k.DSAPrivateKey.Sign(nr, hashed)
+	k.made++
+	if !k.g.specCheckSignature(k.where, k.keyIdx, hashed, nr.last, sig, err) {
+		k.bad++
+	}
+	return sig, err
+}
+
+// one key exchange in which a party's signature has a short s (the other's a short r, or nothing
+// special), made by the library's own signing routine: the peer has to accept it
+func (g *gen) specShortSignatureExchange() {
+	rr := rand.New(rand.NewSource(g.r.Int63()))
+	ver := 2 + rr.Intn(2)
+	kA := rr.Intn(len(testKeys))
+	kB := (kA + 1 + rr.Intn(len(testKeys)-1)) % len(testKeys)
+	whichA, whichB := "s", []string{"r", "", "s"}[rr.Intn(3)]
+	if rr.Intn(2) == 0 {
+		whichA, whichB = whichB, whichA
+	}
+	mk := func(id string, keyIdx int, which string) (*otr3.Conversation, *steerKey) {
+		c := &otr3.Conversation{}
+		c.Rand = rand.New(rand.NewSource(rr.Int63()))
+		c.Policies = 0
+		verifSetPolicies(c, map[int]int{2: 2, 3: 4}[ver])
+		sk := &steerKey{DSAPrivateKey: testKeys[keyIdx], g: g, keyIdx: keyIdx, which: which, rr: rand.New(rand.NewSource(rr.Int63())),
+			where: fmt.Sprintf("key exchange (version %d), signature of party %s, short %q", ver, id, which)}
+		c.SetOurKeys([]otr3.PrivateKey{sk})
+		return c, sk
+	}
+	a, ka := mk("A", kA, whichA)
+	b, kb := mk("B", kB, whichB)
+	msgs, to := []otr3.ValidMessage{a.QueryMessage()}, b
+	var errs []string
+	for round := 0; round < 8 && len(msgs) > 0; round++ {
+		var next []otr3.ValidMessage
+		for _, m := range msgs {
+			_, ts, err := to.Receive(m)
+			if err != nil {
+				errs = append(errs, err.Error())
+			}
+			next = append(next, ts...)
+		}
+		msgs = next
+		if to == b {
+			to = a
+		} else {
+			to = b
+		}
+	}
+	done := a.IsEncrypted() && b.IsEncrypted()
+	g.dist[fmt.Sprintf("sign:exchange-with-short-s:completed-%v", done)]++
+	olog.ok("C10")
+	if !done && ka.bad+kb.bad == 0 {
+		specViol("well-formed-signature-not-accepted", fmt.Sprintf("key exchange (version %d, test keys %d and %d, short %q / %q) with %d signatures that are as the document prescribes did not complete: %v", ver, kA, kB, whichA, whichB, ka.made+kb.made, errs))
+	}
+}
+
 // ---------- a scenario ----------
 
 func (g *gen) specScenario(idx int) {
@@ -1505,8 +1703,8 @@ func (g *gen) specScenario(idx int) {
 		// by the side that heard it (still in the finished state): everything as in a first one
 		st := []*specParty{s.a, s.b}[g.r.Intn(2)]
 		g.dist[fmt.Sprintf("act:session-after-end:from-msgstate-%d", otr3.VerifSnapshot(st.c).MsgState)]++
-		otr3.VerifShiftClock(s.a.c, 61*time.Second)
-		otr3.VerifShiftClock(s.b.c, 61*time.Second)
+		otr3.VerifShiftClock(s.a.c, 75*time.Second)
+		otr3.VerifShiftClock(s.b.c, 75*time.Second)
 		marks := s.beginAKE()
 		s.emitted(st, []otr3.ValidMessage{st.c.QueryMessage()}, nil, otr3.VerifSnapshot(st.c))
 		if !s.runAKE(marks) || s.dead {
@@ -1557,6 +1755,9 @@ func init() {
 		for i := 0; i < n; i++ {
 			g.specScenario(i)
 		}
+		// after the scenarios (their randomness is not shifted): the library's own signing routine
+		g.specShortSignatureExchange()
+		g.specSignatures()
 		extra["panics"] = panicCount
 		extra["violation_counts"] = specViolCount
 		olog.export(extra)
